@@ -41,7 +41,10 @@ fn spelling<const K: u8>() {
         6 => (jsx_ns_attr("v-foo", "bar_m", Some(container(opaque(1)))), "foo", Some("bar"), &["m"]),
         7 => (jsx_ns_attr("vFoo", "bar", Some(container(opaque(1)))), "foo", Some("bar"), &[]),
         8 => (jsx_attr("v-show", Some(container(opaque(1)))), "show", None, &[]),
-        _ => (jsx_attr("v-my-dir", Some(container(opaque(1)))), "my-dir", None, &[]),
+        9 => (jsx_attr("v-my-dir", Some(container(opaque(1)))), "my-dir", None, &[]),
+        10 => (jsx_attr("v-vis", Some(container(opaque(1)))), "vis", None, &[]),           // the name itself starts with `v`
+        11 => (jsx_ns_attr("v-vis", "top", Some(container(opaque(1)))), "vis", Some("top"), &[]),
+        _ => (jsx_attr("v-foo_a", Some(container(garray([el(opaque(1))])))), "foo", None, &["a"]),   // suffix modifiers with the [v] form
     };
     let is_component: bool = kani::any();
     let e0 = errors();
@@ -61,24 +64,25 @@ fn spelling<const K: u8>() {
     assert!(errors() == e0, "C04: a well-formed directive reports no error");
     std::mem::forget(a);
 }
-macro_rules! sp_h { ($($n:ident: $k:expr;)*) => { $(#[kani::proof] #[kani::unwind(12)] #[kani::stub(std::ptr::drop_in_place, no_drop)] #[kani::stub(core::ptr::drop_glue, no_glue)] fn $n() { spelling::<$k>() })* } }
+macro_rules! sp_h { ($($n:ident: $k:expr;)*) => { $(#[kani::proof] #[kani::unwind(7)] #[kani::stub(std::ptr::drop_in_place, no_drop)] #[kani::stub(core::ptr::drop_glue, no_glue)] fn $n() { spelling::<$k>() })* } }
 sp_h! { dirspell_kebab: 0; dirspell_camel: 1; dirspell_camel_inner_upper: 2; dirspell_one_modifier: 3; dirspell_two_modifiers: 4;
-        dirspell_ns_arg: 5; dirspell_ns_arg_modifier: 6; dirspell_camel_ns: 7; dirspell_show: 8; dirspell_kebab_inner: 9; }
+        dirspell_ns_arg: 5; dirspell_ns_arg_modifier: 6; dirspell_camel_ns: 7; dirspell_show: 8; dirspell_kebab_inner: 9;
+        dirspell_name_starts_with_v: 10; dirspell_ns_name_starts_with_v: 11; dirspell_suffix_with_array_form: 12; }
 
 /// Value-form contract (C04): [v], [v,arg], [v,[mods]], [v,arg,[mods]]; holes / spreads / empty arrays / missing
 /// values must either give a well-formed binding or report an error (C07 placeholder rule).
 fn value_form<const F: u8>() {
-    let modlist = || array(vec![el(strlit("b")), el(strlit("a"))]);
+    let modlist = || garray([el(strlit("b")), el(strlit("a"))]);
     let value: Option<JSXAttrValue> = match F {
-        0 => Some(container(array(vec![el(opaque(1))]))),
-        1 => Some(container(array(vec![el(opaque(1)), el(opaque(2))]))),
-        2 => Some(container(array(vec![el(opaque(1)), el(modlist())]))),
-        3 => Some(container(array(vec![el(opaque(1)), el(opaque(2)), el(modlist())]))),
-        4 => Some(container(array(vec![]))),
-        5 => Some(container(array(vec![None, el(opaque(2))]))),
+        0 => Some(container(garray([el(opaque(1))]))),
+        1 => Some(container(garray([el(opaque(1)), el(opaque(2))]))),
+        2 => Some(container(garray([el(opaque(1)), el(modlist())]))),
+        3 => Some(container(garray([el(opaque(1)), el(opaque(2)), el(modlist())]))),
+        4 => Some(container(garray::<0>([]))),
+        5 => Some(container(garray([None, el(opaque(2))]))),
         6 => None,
         7 => Some(str_value("s")),
-        _ => Some(container(array(vec![el(opaque(1)), el(array(vec![el(strlit("a-b"))]))]))),
+        _ => Some(container(garray([el(opaque(1)), el(garray([el(strlit("a-b"))]))]))),
     };
     let a = jsx_attr("v-foo", value);
     let is_component: bool = kani::any();
@@ -114,7 +118,7 @@ fn html_text<const TEXT: bool, const KIND: u8>() {
         0 => None,
         1 => Some(str_value("x")),
         2 => Some(container(opaque(1))),
-        3 => Some(container(array(vec![el(opaque(1))]))),
+        3 => Some(container(garray([el(opaque(1))]))),
         4 => Some(JSXAttrValue::JSXExprContainer(JSXExprContainer { span: sp(4), expr: JSXExpr::JSXEmptyExpr(JSXEmptyExpr { span: sp(4) }) })),
         5 => Some(JSXAttrValue::JSXElement(Box::new(empty_jsx_element("b", unresolved_ctxt())))),
         _ => Some(JSXAttrValue::JSXFragment(jsx_fragment())),
@@ -137,17 +141,19 @@ ht_h! { vhtml_absent: false, 0; vhtml_str: false, 1; vhtml_expr: false, 2; vhtml
 
 /// v-model parsing (C05): argument / modifiers forms, plain and namespaced, element and component.
 fn vmodel<const F: u8>() {
-    let modlist = || array(vec![el(strlit("trim"))]);
+    let modlist = || garray([el(strlit("trim"))]);
     let (a, arg, mods): (JSXAttr, u8, &[&str]) = match F { // arg: 0 none, 1 "foo", 2 opaque(2)
         0 => (jsx_attr("v-model", Some(container(opaque(1)))), 0, &[]),
         1 => (jsx_attr("v-model_trim", Some(container(opaque(1)))), 0, &["trim"]),
         2 => (jsx_ns_attr("v-model", "foo", Some(container(opaque(1)))), 1, &[]),
         3 => (jsx_ns_attr("v-model", "foo_trim", Some(container(opaque(1)))), 1, &["trim"]),
-        4 => (jsx_attr("v-model", Some(container(array(vec![el(opaque(1)), el(strlit("foo"))])))), 1, &[]),
-        5 => (jsx_attr("v-model", Some(container(array(vec![el(opaque(1)), el(opaque(2))])))), 2, &[]),
-        6 => (jsx_attr("v-model", Some(container(array(vec![el(opaque(1)), el(modlist())])))), 0, &["trim"]),
-        7 => (jsx_attr("v-model", Some(container(array(vec![el(opaque(1)), el(strlit("foo")), el(modlist())])))), 1, &["trim"]),
-        _ => (jsx_attr("vModel", Some(container(opaque(1)))), 0, &[]),
+        4 => (jsx_attr("v-model", Some(container(garray([el(opaque(1)), el(strlit("foo"))])))), 1, &[]),
+        5 => (jsx_attr("v-model", Some(container(garray([el(opaque(1)), el(opaque(2))])))), 2, &[]),
+        6 => (jsx_attr("v-model", Some(container(garray([el(opaque(1)), el(modlist())])))), 0, &["trim"]),
+        7 => (jsx_attr("v-model", Some(container(garray([el(opaque(1)), el(strlit("foo")), el(modlist())])))), 1, &["trim"]),
+        8 => (jsx_attr("vModel", Some(container(opaque(1)))), 0, &[]),
+        9 => (jsx_ns_attr("v-model", "foo", Some(container(garray([el(opaque(1))])))), 1, &[]),          // what v-models decouples `[b, "foo"]` into
+        _ => (jsx_ns_attr("v-model", "foo_trim", Some(container(garray([el(opaque(1))])))), 1, &["trim"]),
     };
     let is_component: bool = kani::any();
     match parse_directive(&a, is_component) {
@@ -167,7 +173,7 @@ fn vmodel<const F: u8>() {
     std::mem::forget(a);
 }
 macro_rules! vm_h { ($($n:ident: $k:expr;)*) => { $(#[kani::proof] #[kani::unwind(12)] #[kani::stub(std::ptr::drop_in_place, no_drop)] #[kani::stub(core::ptr::drop_glue, no_glue)] fn $n() { vmodel::<$k>() })* } }
-vm_h! { vmodel_plain: 0; vmodel_suffix_modifier: 1; vmodel_ns_arg: 2; vmodel_ns_arg_modifier: 3; vmodel_array_strarg: 4; vmodel_array_computed: 5; vmodel_array_mods: 6; vmodel_array_arg_mods: 7; vmodel_camel: 8; }
+vm_h! { vmodel_plain: 0; vmodel_suffix_modifier: 1; vmodel_ns_arg: 2; vmodel_ns_arg_modifier: 3; vmodel_array_strarg: 4; vmodel_array_computed: 5; vmodel_array_mods: 6; vmodel_array_arg_mods: 7; vmodel_camel: 8; vmodel_ns_arg_array_form: 9; vmodel_ns_arg_modifier_array_form: 10; }
 
 /// resolve_directive (C04 vShow / resolveDirective(name); C05 model directive by host and `type`).
 fn resolve<const NAME: u8, const HOST: u8, const TYPE: u8>() {
@@ -205,3 +211,27 @@ macro_rules! rs_h { ($($n:ident: $a:expr, $b:expr, $c:expr;)*) => { $(#[kani::pr
 rs_h! { resolve_show: 0, 3, 0; resolve_custom: 2, 3, 0; resolve_model_input_notype: 1, 0, 0; resolve_model_input_checkbox: 1, 0, 1; resolve_model_input_radio: 1, 0, 2;
         resolve_model_input_text: 1, 0, 3; resolve_model_input_dynamic: 1, 0, 4; resolve_model_input_type_after_other: 1, 0, 5; resolve_model_select: 1, 1, 0;
         resolve_model_select_with_type: 1, 1, 1; resolve_model_textarea: 1, 2, 0; resolve_model_other_element: 1, 3, 0; }
+
+#[kani::proof] #[kani::unwind(7)] #[kani::stub(std::ptr::drop_in_place, no_drop)] #[kani::stub(core::ptr::drop_glue, no_glue)]
+fn dirspell_probe_inplace() {
+    let a = JSXAttr { span: sp(5), name: JSXAttrName::Ident(IdentName { span: DUMMY_SP, sym: Atom::from("v-foo") }), value: Some(container(opaque(1))) };
+    match parse_directive(&a, kani::any()) {
+        Directive::Normal(d) => { assert!(&*d.name == "foo"); assert!(d.modifiers.is_none()); std::mem::forget(d); }
+        _ => assert!(false),
+    }
+    std::mem::forget(a);
+}
+#[kani::proof] #[kani::unwind(6)] #[kani::stub(std::ptr::drop_in_place, no_drop)] #[kani::stub(core::ptr::drop_glue, no_glue)]
+fn dirspell_probe_v1() {
+    let a = JSXAttr { span: sp(5), name: JSXAttrName::Ident(idn("class")), value: None };
+    let mut n = 0;
+    if directive::is_directive(&a) { match directive::parse_directive(&a, false) { directive::Directive::Normal(d) => { std::mem::forget(d); n = 100; } _ => { n = 50; } } }
+    assert!(n == 0);
+    std::mem::forget(a);
+}
+#[kani::proof] #[kani::unwind(6)] #[kani::stub(std::ptr::drop_in_place, no_drop)] #[kani::stub(core::ptr::drop_glue, no_glue)]
+fn dirspell_probe_v1b() {
+    let a = JSXAttr { span: sp(5), name: JSXAttrName::Ident(idn("v-foo")), value: None };
+    match directive::parse_directive(&a, false) { directive::Directive::Normal(d) => { assert!(&*d.name == "foo"); std::mem::forget(d); } _ => { assert!(false); } }
+    std::mem::forget(a);
+}
